@@ -54,7 +54,7 @@ def main():
             continue
         meta = json.load(open(os.path.join(V, "seeded", sid, "meta.json")))
         props = sorted(meta.get("caught_by") or {})
-        if not props:
+        if not props or meta.get("obsolete"):
             continue
         diff = open(os.path.join(V, "seeded", sid, "patch.diff")).read()
         files = set(l[6:].strip() for l in diff.splitlines() if l.startswith("+++ b/"))
